@@ -813,6 +813,9 @@ class ExcelCompiler:
             if str(excel_data.address) in self.cell_map:
                 # the range an unbounded range resolves to, is already built
                 new_nodes = []
+            elif not excel_data.address.is_range:
+                # an unbounded range can resolve to a single cell
+                new_nodes = build_cell(excel_data)
             else:
                 self.range_todos.append(str(excel_data.address))
                 new_nodes = build_range(excel_data)
